@@ -1,11 +1,19 @@
 // C12 replayer: forces TLC-generated (programs x interleavings) of spec/RefCount.tla onto real threads that copy,
-// assign and drop their own handles to shared Array / Map / HashMap / Shared<T> / SmartObject-class objects, using the
-// token-passing scheduler at the library's atomic steps (ASL_VERIF hooks in atomicInc/atomicDec).
+// assign and drop their own handles to shared Array / Map / HashMap / Shared<T> / SmartObject-class / Var container
+// objects, using the token-passing scheduler at the library's atomic steps (ASL_VERIF hooks in atomicInc/atomicDec).
+// Extended operations (RefCount.tla, Ext): null handles, self-assignment, as<>() + converting copy, clone().
+// Destruction is observed through the payload's destructor (Probe) or, for Var containers, through the state of the
+// storage block (freed blocks are poisoned by AddressSanitizer); the expected values come from the specification.
 #include <asl/Array.h>
 #include <asl/Map.h>
 #include <asl/HashMap.h>
 #include <asl/Shared.h>
 #include <asl/Pointer.h>
+#include <asl/Var.h>
+#include <asl/Stack.h>
+#include <asl/Queue.h>
+#include <asl/Array2.h>
+#include <sanitizer/asan_interface.h>
 #include "vsched.h"
 #include "vrun.h"
 
@@ -13,6 +21,7 @@ using namespace asl;
 using vrun::Outcome;
 
 static volatile int g_liveP[8]; // live payload instances per object id
+static __thread int tl_cloneId;  // id given to the payload copy made by clone() (the specification names the new object)
 
 struct Probe
 {
@@ -20,7 +29,8 @@ struct Probe
 	int* heap;
 	Probe() : id(0), heap(new int(0)) { g_liveP[0]++; }
 	explicit Probe(int i) : id(i), heap(new int(i)) { g_liveP[id]++; }
-	Probe(const Probe& o) : id(o.id), heap(new int(o.id)) { g_liveP[id]++; }
+	Probe(const Probe& o) : id(tl_cloneId ? tl_cloneId : o.id), heap(new int(o.id)) { g_liveP[id]++; }
+	virtual Probe* clone() const { return new Probe(*this); }
 	Probe& operator=(const Probe& o)
 	{
 		g_liveP[id]--;
@@ -29,7 +39,17 @@ struct Probe
 		g_liveP[id]++;
 		return *this;
 	}
-	~Probe() { delete heap; g_liveP[id]--; }
+	virtual ~Probe() { delete heap; g_liveP[id]--; }
+};
+// class hierarchy behind Shared<Probe> handles: the objects are DProbe, nothing is a DOther
+struct DProbe : public Probe
+{
+	explicit DProbe(int i) : Probe(i) {}
+	Probe* clone() const { return new DProbe(*this); }
+};
+struct DOther : public Probe
+{
+	Probe* clone() const { return new DOther(*this); }
 };
 
 // SmartObject-based class (declared with the library's macros, like Socket)
@@ -48,37 +68,195 @@ public:
 	ASL_SMART_DEF(Obj, SmartObject);
 	explicit Obj(int id) : ASL_SMART_INIT(id) {}
 };
+// derived SmartObject classes: the objects are DObj (used through Obj handles), nothing is a DOtherObj
+ASL_SMART_CLASS(DObj, Obj)
+{
+public:
+	ASL_SMART_INNER_DEF(DObj);
+	DObj_() {}
+	DObj_(int id) : Obj_(id) {}
+};
+class DObj : public Obj
+{
+public:
+	ASL_SMART_DEF(DObj, Obj);
+	explicit DObj(int id) : ASL_SMART_INIT(id) {}
+};
+ASL_SMART_CLASS(DOtherObj, Obj)
+{
+public:
+	ASL_SMART_INNER_DEF(DOtherObj);
+	DOtherObj_() {}
+};
+class DOtherObj : public Obj
+{
+public:
+	ASL_SMART_DEF(DOtherObj, Obj);
+};
 }
+
+// the part of the handle API that only some handle types have (RefCount.tla, Ext)
+template <class C>
+struct Api
+{
+	static C conv(const C& s, std::string&) { return s; }
+	static C asOther(const C& s, std::string&) { return s; }
+	static C clone(const C& s) { return s; }
+	static C null() { return C(); }
+	static bool isNull(const C&) { return false; }
+	static bool comparable() { return false; }
+	static bool same(const C&, const C&) { return false; }
+};
+template <>
+struct Api<Shared<Probe> >
+{
+	typedef Shared<Probe> C;
+	// as<Derived>() yields a temporary Shared<DProbe>; the converting constructor copies it into the result
+	static C conv(const C& s, std::string& err)
+	{
+		C r(s.as<DProbe>());
+		if (!r || r.get() != s.get()) err = "as<DProbe>() of a DProbe does not refer to the object";
+		return r;
+	}
+	static C asOther(const C& s, std::string& err)
+	{
+		Shared<DOther> e = s.as<DOther>();
+		if (e) err = "as<DOther>() of a DProbe is not null";
+		return C(e); // converting copy of a null handle
+	}
+	static C clone(const C& s) { return s.clone(); }
+	static C null() { return C(); }
+	static bool isNull(const C& c) { return !c; }
+	static bool comparable() { return true; }
+	static bool same(const C& a, const C& b) { return a == b.get() && !(a != b.get()); }
+};
+template <>
+struct Api<Obj>
+{
+	typedef Obj C;
+	static C conv(const C& s, std::string& err) { if (!s.is<DObj>() || s.is<DOtherObj>()) err = "is<>() wrong for a DObj"; return C(s.as<DObj>()); }
+	static C asOther(const C& s, std::string& err)
+	{
+		DOtherObj e = s.as<DOtherObj>();
+		if (e) err = "as<DOtherObj>() of a DObj is not null";
+		return C(e);
+	}
+	static C clone(const C& s) { return s.clone(); }
+	static C null() { return C((Obj::Ptr)0); }
+	static bool isNull(const C& c) { return !c || c.isnull(); }
+	static bool comparable() { return true; }
+	static bool same(const C& a, const C& b) { return a == b && a.is(b) && !(a != b); }
+};
+template <>
+struct Api<Var>
+{
+	typedef Var C;
+	static C conv(const C& s, std::string&) { return s; }
+	static C asOther(const C& s, std::string&) { return s; }
+	static C clone(const C& s) { return s; }
+	static C null() { return C(); }
+	static bool isNull(const C& c) { return c.is(Var::NONE); }
+	static bool comparable() { return false; }
+	static bool same(const C&, const C&) { return false; }
+};
+
+enum Mode { M_COPY, M_CONV, M_ASNULL, M_CLONE, M_NULL };
 
 struct HandleBase
 {
 	virtual ~HandleBase() {}
-	virtual HandleBase* copy() const = 0;
+	virtual HandleBase* make(Mode m, std::string& err) const = 0; // a new handle produced from this one
 	virtual void assign(const HandleBase& o) = 0;
+	virtual bool isNull() const = 0;
+	virtual bool comparable() const = 0;
+	virtual bool same(const HandleBase& o) const = 0;
 };
 template <class C>
 struct HandleT : public HandleBase
 {
 	C c;
 	explicit HandleT(const C& x) : c(x) {}
-	HandleBase* copy() const { return new HandleT<C>(c); }
+	// the handle is constructed in place from the API call's result (no extra copy: the counted steps are the library's)
+	static C build(Mode m, const C& x, std::string& err)
+	{
+		switch (m)
+		{
+		case M_CONV: return Api<C>::conv(x, err);
+		case M_ASNULL: return Api<C>::asOther(x, err);
+		case M_CLONE: return Api<C>::clone(x);
+		default: return Api<C>::null();
+		}
+	}
+	HandleT(Mode m, const C& x, std::string& err) : c(build(m, x, err)) {}
+	HandleBase* make(Mode m, std::string& err) const { return m == M_COPY ? new HandleT<C>(c) : new HandleT<C>(m, c, err); }
 	void assign(const HandleBase& o) { c = static_cast<const HandleT<C>&>(o).c; }
+	bool isNull() const { return Api<C>::isNull(c); }
+	bool comparable() const { return Api<C>::comparable(); }
+	bool same(const HandleBase& o) const { return Api<C>::same(c, static_cast<const HandleT<C>&>(o).c); }
 };
 
 template <class C> C makeObj(int id);
 template <> Array<Probe> makeObj<Array<Probe> >(int id) { Array<Probe> a; a << Probe(id); return a; }
 template <> Map<int, Probe> makeObj<Map<int, Probe> >(int id) { Map<int, Probe> m; m[7] = Probe(id); return m; }
 template <> HashMap<int, Probe> makeObj<HashMap<int, Probe> >(int id) { HashMap<int, Probe> m; m[7] = Probe(id); return m; }
-template <> Shared<Probe> makeObj<Shared<Probe> >(int id) { return Shared<Probe>(new Probe(id)); }
-template <> Obj makeObj<Obj>(int id) { return Obj(id); }
+// the other containers built on one Array block (discipline "array") or on HashMap (discipline "hashmap")
+template <> Dic<Probe> makeObj<Dic<Probe> >(int id) { Dic<Probe> m; m["k"] = Probe(id); return m; }
+template <> Stack<Probe> makeObj<Stack<Probe> >(int id) { Stack<Probe> a; a.push(Probe(id)); return a; }
+template <> Queue<Probe> makeObj<Queue<Probe> >(int id) { Queue<Probe> a; a.put(Probe(id)); return a; }
+template <> Array2<Probe> makeObj<Array2<Probe> >(int id) { Array2<Probe> a(1, 1); a(0, 0) = Probe(id); return a; }
+template <> HashDic<Probe> makeObj<HashDic<Probe> >(int id) { HashDic<Probe> m; m["k"] = Probe(id); return m; }
+template <> Shared<Probe> makeObj<Shared<Probe> >(int id) { return Shared<Probe>(Shared<DProbe>(new DProbe(id))); }
+template <> Obj makeObj<Obj>(int id) { return DObj(id); }
 
-struct Op { int k, i, j; }; // k: 0 copy, 1 drop, 2 assign
+// Var containers: g_varObject selects array / object (Dic) Vars; embedded handles are added by the caller
+static bool g_varObject;
+static const void* g_block[8]; // an address inside the storage block of object o
+template <> Var makeObj<Var>(int id)
+{
+	Var v(g_varObject ? Var::OBJ : Var::ARRAY);
+	if (g_varObject) v["a"] = id; else v << id;
+	return v;
+}
+static void embed(Var& parent, const Var& kid, int n)
+{
+	if (g_varObject) { char key[8]; snprintf(key, sizeof key, "k%d", n); parent[String(key)] = kid; } else parent << kid;
+}
+static const void* blockOf(const Var& v) { return g_varObject ? (const void*)&v["a"] : (const void*)&v[0]; }
+
+struct Op { int k, i, j, o, m, null, n; int s[6]; }; // k: 0 copy, 1 drop, 2 assign, 3 conv, 4 asnull, 5 clone, 6 mknull, 7 exit (state check only)
+
+static HandleBase* (*g_mkNull)();
 
 struct Worker
 {
 	std::vector<Op> prog;
 	HandleBase* slot[6];
+	std::string err;
 };
+
+// the thread's own handles must be what the specification says they are: absent / null / referring to the same object
+static void checkSlots(Worker& w, const Op& o, size_t n)
+{
+	char b[200];
+	for (int a = 1; a <= o.n && w.err.empty(); a++)
+	{
+		bool absent = w.slot[a] == 0;
+		if (absent != (o.s[a] == 0) || (!absent && w.slot[a]->isNull() != (o.s[a] == o.null)))
+		{
+			snprintf(b, sizeof b, "before operation %zu: slot %d is %s; the specification says %s", n + 1, a,
+			         absent ? "absent" : w.slot[a]->isNull() ? "a null handle" : "a handle to an object",
+			         o.s[a] == 0 ? "absent" : o.s[a] == o.null ? "null" : "a handle to an object");
+			w.err = b;
+		}
+		for (int c = a + 1; c <= o.n && w.err.empty() && !absent && !w.slot[a]->isNull() && w.slot[a]->comparable(); c++)
+			if (w.slot[c] && !w.slot[c]->isNull() && w.slot[a]->same(*w.slot[c]) != (o.s[a] == o.s[c]))
+			{
+				snprintf(b, sizeof b, "before operation %zu: handles %d and %d compare %s; the specification has them on objects %d and %d",
+				         n + 1, a, c, o.s[a] == o.s[c] ? "different" : "equal", o.s[a], o.s[c]);
+				w.err = b;
+			}
+	}
+}
 
 static void* workerMain(void* p)
 {
@@ -86,9 +264,18 @@ static void* workerMain(void* p)
 	for (size_t n = 0; n < w.prog.size(); n++)
 	{
 		const Op& o = w.prog[n];
-		if (o.k == 0) w.slot[o.j] = w.slot[o.i]->copy();
-		else if (o.k == 1) { delete w.slot[o.i]; w.slot[o.i] = 0; }
-		else w.slot[o.i]->assign(*w.slot[o.j]);
+		checkSlots(w, o, n);
+		if (o.k == 7) break;
+		if (o.m == 0) vsched::userPoint(0); // an operation without atomic step is a step of its own in the specification
+		if (o.k == 1) { delete w.slot[o.i]; w.slot[o.i] = 0; }
+		else if (o.k == 2) w.slot[o.i]->assign(*w.slot[o.j]);
+		else if (o.k == 6) w.slot[o.i] = g_mkNull();
+		else
+		{
+			tl_cloneId = o.k == 5 ? o.o : 0;
+			w.slot[o.j] = w.slot[o.i]->make(o.k == 0 ? M_COPY : o.k == 3 ? M_CONV : o.k == 4 ? M_ASNULL : M_CLONE, w.err);
+			tl_cloneId = 0;
+		}
 	}
 	return 0;
 }
@@ -97,6 +284,7 @@ struct ObsCtx
 {
 	const vj::Value* steps;
 	int no;
+	bool blocks; // Var containers: observe the storage blocks instead of payload destructors
 	std::string err;
 };
 static void observe(int decision, void* arg)
@@ -105,55 +293,90 @@ static void observe(int decision, void* arg)
 	if (decision == 0 || !oc.err.empty() || vsched::S().mismatches) return;
 	size_t k = (size_t)decision - 1;
 	if (k >= oc.steps->size()) return;
-	const vj::Value& d = (*oc.steps)[k]["d"];
+	const vj::Value& e = (*oc.steps)[k];
+	const vj::Value& d = e["d"];
+	const vj::Value& f = e["f"];
+	const vj::Value& b = e["b"];
+	char buf[200];
 	for (int o = 1; o <= oc.no; o++)
 	{
+		if (!b[o - 1].i()) continue; // not created yet (a clone's payload may exist before its first reference is taken)
+		if (oc.blocks)
+		{
+			int freed = __asan_address_is_poisoned(g_block[o]) ? 1 : 0;
+			if (freed != f[o - 1].i())
+			{
+				snprintf(buf, sizeof buf, "after step %zu: the storage block of container %d is %s; specification says freed=%d", k + 1, o,
+				         freed ? "freed" : "still allocated", f[o - 1].i());
+				oc.err = buf;
+			}
+			continue;
+		}
 		int destroyed = g_liveP[o] == 0 ? 1 : 0;
 		if (g_liveP[o] < 0 || g_liveP[o] > 1 + 1 || destroyed != d[o - 1].i())
 		{
-			char b[200];
-			snprintf(b, sizeof b, "after step %zu: object %d has %d live payload instance(s); specification says destroyed=%d", k + 1, o, g_liveP[o], d[o - 1].i());
-			oc.err = b;
+			snprintf(buf, sizeof buf, "after step %zu: object %d has %d live payload instance(s); specification says destroyed=%d", k + 1, o, g_liveP[o], d[o - 1].i());
+			oc.err = buf;
 		}
 	}
 }
 
+template <class C> static bool isVar() { return false; }
+template <> bool isVar<Var>() { return true; }
+template <class C> static void embedKids(std::vector<C>&, const std::string&, int) {}
+// handles embedded in containers (RefCount.tla, Kids): chain = o holds o+1, tree = 1 holds 2..nb
+template <> void embedKids<Var>(std::vector<Var>& objs, const std::string& shape, int nb)
+{
+	if (shape == "chain") for (int o = nb - 1; o >= 1; o--) embed(objs[o - 1], objs[o], o + 1);
+	if (shape == "tree") for (int o = 2; o <= nb; o++) embed(objs[0], objs[o - 1], o);
+	for (int o = 1; o <= nb; o++) g_block[o] = blockOf(objs[o - 1]);
+}
+template <class C> static HandleBase* mkNull() { return new HandleT<C>(Api<C>::null()); }
+
 template <class C>
 static Outcome runTyped(const vj::Value& c, const char* tname)
 {
-	int nt = c["nt"].i(), no = c["no"].i(), ns = c["ns"].i();
+	int nt = c["nt"].i(), no = c["no"].i(), ns = c["ns"].i(), nb = c["nb"].i();
 	const vj::Value& steps = c["steps"];
 	for (int o = 0; o < 8; o++) g_liveP[o] = 0;
 	std::vector<Worker> ws((size_t)nt + 1);
 	{
 		std::vector<C> objs;
-		for (int o = 1; o <= no; o++) objs.push_back(makeObj<C>(o));
+		for (int o = 1; o <= nb; o++) objs.push_back(makeObj<C>(o));
+		embedKids<C>(objs, c["shape"].s(), nb);
 		for (int t = 1; t <= nt; t++)
 			for (int s = 0; s < 6; s++)
-				ws[t].slot[s] = (s >= 1 && s <= ns && s <= no) ? new HandleT<C>(objs[s - 1]) : 0;
-	} // main's own handles are gone: the counters equal the number of worker handles
+				ws[t].slot[s] = (s >= 1 && s <= ns && s <= nb) ? new HandleT<C>(objs[s - 1]) : 0;
+	} // main's own handles are gone: the counters equal the number of worker handles (plus the embedded ones)
 	std::vector<int> plan;
 	for (size_t n = 0; n < steps.size(); n++)
 	{
 		const vj::Value& e = steps[n];
 		plan.push_back(e["t"].i());
 		const std::string& k = e["k"].s();
-		if (k == "copy" || k == "drop" || k == "assign")
-		{
-			Op o = { k == "copy" ? 0 : k == "drop" ? 1 : 2, e["i"].i(), e["j"].i() };
-			ws[e["t"].i()].prog.push_back(o);
-		}
+		static const char* names[] = { "copy", "drop", "assign", "conv", "asnull", "clone", "mknull", "exit" };
+		for (int x = 0; x < 8; x++)
+			if (k == names[x])
+			{
+				Op o;
+				o.k = x; o.i = e["i"].i(); o.j = e["j"].i(); o.o = e["o"].i(); o.m = x == 7 ? 1 : e["m"].i(); o.null = no + 1; o.n = ns;
+				for (int a = 1; a <= ns && a < 6; a++) o.s[a] = e["s"][a - 1].i();
+				ws[e["t"].i()].prog.push_back(o);
+			}
 	}
-	for (int o = 1; o <= no; o++)
-		if (g_liveP[o] != 1) return Outcome::fail(std::string(tname) + ": harness: setup left " + std::to_string(g_liveP[o]) + " payload instances");
+	if (!isVar<C>())
+		for (int o = 1; o <= nb; o++)
+			if (g_liveP[o] != 1) return Outcome::fail(std::string(tname) + ": harness: setup left " + std::to_string(g_liveP[o]) + " payload instances");
 	ObsCtx oc;
 	oc.steps = &steps;
 	oc.no = no;
+	oc.blocks = isVar<C>();
 	vsched::Sched& S = vsched::S();
 	S.observer = observe;
 	S.observerArg = &oc;
-	static const int points[] = { vsched::PRE_INC, vsched::PRE_DEC, vsched::PRE_JOIN };
-	vsched::begin(plan, points, 3);
+	g_mkNull = &mkNull<C>;
+	static const int points[] = { vsched::PRE_INC, vsched::PRE_DEC, vsched::PRE_JOIN, vsched::USER };
+	vsched::begin(plan, points, 4);
 	std::vector<pthread_t> tids((size_t)nt + 1);
 	for (int t = 1; t <= nt; t++) tids[t] = vsched::spawn(workerMain, &ws[t]);
 	for (int t = 1; t <= nt; t++)
@@ -166,24 +389,26 @@ static Outcome runTyped(const vj::Value& c, const char* tname)
 	int mism = S.mismatches;
 	Outcome res;
 	if (!oc.err.empty()) res = Outcome::fail(std::string(tname) + ": " + oc.err);
+	for (int t = 1; t <= nt && res.ok; t++)
+		if (!ws[t].err.empty()) res = Outcome::fail(std::string(tname) + ": thread " + std::to_string(t) + ": " + ws[t].err);
 	// final: the payload is destroyed exactly when no handle is left
-	for (int o = 1; o <= no && res.ok; o++)
-	{
-		int handles = 0;
-		// (which object a slot refers to is the specification's business; here: any handle left keeps *some* object alive)
-		(void)handles;
-	}
-	int left = 0;
-	for (int t = 1; t <= nt; t++) for (int s = 0; s < 6; s++) if (ws[t].slot[s]) left++;
 	for (int t = 1; t <= nt; t++) for (int s = 0; s < 6; s++) { delete ws[t].slot[s]; ws[t].slot[s] = 0; }
 	for (int o = 1; o <= no && res.ok; o++)
-		if (g_liveP[o] != 0)
+	{
+		if (isVar<C>())
+		{
+			if (o <= nb && !__asan_address_is_poisoned(g_block[o]))
+				res = Outcome::fail(std::string(tname) + ": the storage block of container " + std::to_string(o) + " is still allocated after the last handle was dropped");
+		}
+		else if (g_liveP[o] != 0)
 			res = Outcome::fail(std::string(tname) + ": object " + std::to_string(o) + " has " + std::to_string(g_liveP[o]) + " live payload instance(s) after the last handle was dropped");
+	}
 	// A schedule that cannot be followed means the operations no longer consist of the atomic steps RefCount.tla
 	// describes (e.g. after a refactoring).  That alone is not a violation of the property: the step-by-step comparison
 	// stops at the first mismatch, the outcome checks above and the sanitizer still apply, and the number is reported.
 	if (mism) fprintf(stderr, "VRUN-NOTE schedule-mismatch %d\n", mism);
-	(void)left;
+	// development aid: C12_STRICT=1 turns an unfollowable schedule into a failure (to check that spec and code agree step by step)
+	if (mism && res.ok && getenv("C12_STRICT")) res = Outcome::fail(std::string(tname) + ": schedule could not be followed (" + std::to_string(mism) + " mismatches)");
 	return res;
 }
 
@@ -191,15 +416,38 @@ static Outcome runCase(const vj::Value& c)
 {
 	const std::string& ty = c["type"].s();
 	Outcome r;
+	// the derived container types follow the discipline of the block they hold: every case also runs on one of them
+	// (chosen by the case's shape), or on all of them with C12_MORE_TYPES=all
+	const char* more = getenv("C12_MORE_TYPES");
+	bool all = more && std::string(more) == "all";
+	size_t pick = c["steps"].size() + (size_t)c["steps"][c["steps"].size() / 2]["t"].i();
 	if (ty == "array")
 	{
 		r = runTyped<Array<Probe> >(c, "Array<Probe>");
 		if (!r.ok) return r;
-		return runTyped<Map<int, Probe> >(c, "Map<int,Probe>");
+		r = runTyped<Map<int, Probe> >(c, "Map<int,Probe>");
+		if (r.ok && (all || pick % 4 == 0)) r = runTyped<Dic<Probe> >(c, "Dic<Probe>");
+		if (r.ok && (all || pick % 4 == 1)) r = runTyped<Stack<Probe> >(c, "Stack<Probe>");
+		if (r.ok && (all || pick % 4 == 2)) r = runTyped<Queue<Probe> >(c, "Queue<Probe>");
+		if (r.ok && (all || pick % 4 == 3)) r = runTyped<Array2<Probe> >(c, "Array2<Probe>");
+		return r;
 	}
-	if (ty == "hashmap") return runTyped<HashMap<int, Probe> >(c, "HashMap<int,Probe>");
+	if (ty == "hashmap")
+	{
+		r = runTyped<HashMap<int, Probe> >(c, "HashMap<int,Probe>");
+		if (r.ok && (all || pick % 2 == 0)) r = runTyped<HashDic<Probe> >(c, "HashDic<Probe>");
+		return r;
+	}
 	if (ty == "shared") return runTyped<Shared<Probe> >(c, "Shared<Probe>");
 	if (ty == "smart") return runTyped<Obj>(c, "SmartObject class");
+	if (ty == "var")
+	{
+		g_varObject = false;
+		r = runTyped<Var>(c, "Var (array)");
+		if (!r.ok) return r;
+		g_varObject = true;
+		return runTyped<Var>(c, "Var (object)");
+	}
 	return Outcome::fail("harness: unknown type " + ty);
 }
 
